@@ -40,7 +40,7 @@ vars == <<j, x, lat, cfg, phase, rowsA, rowsB, codes, pcodes, modelPost>>
 LCG(r) == (r * 75 + 74) % 65537
 RECURSIVE Draws(_, _)
 Draws(r, m) == IF m = 0 THEN <<>> ELSE <<LCG(r)>> \o Draws(LCG(r), m - 1)
-Pick(seq, d) == seq[(d % Len(seq)) + 1]
+Pick(seq, d) == seq[((d \div 16) % Len(seq)) + 1]
 
 \* ------------------------------------------------------------- instances
 NoU == <<>>
